@@ -39,6 +39,16 @@ CHECKS = {
    text="(1) programs behind SourceBlockEncoder::new / with_encoding_plan validated for all data for every K' up to the bound => intermediate symbols are the RFC's unique C; (2) Kani: for the K'=10 geometry and every in-range tuple the result of enc_into on a one-hot slab equals the GF(2) coefficient vector of an independent Enc[] transcription (identity and permuted slab); (3) E2: tuple == RFC Tuple for rows K'<=600 (quick) / all 477 (thorough), X symbolic; (4) concrete: real source/repair packets (ESIs K.., 2^24-1, seeded) equal the transcription's byte for byte.",
    note="Trusted: as C06 plus the paper composition of (1)-(3); ESI->ISI offset and source packet identity are only observed concretely in (4); T>1 rests on C09/C11.",
    design="§4 C04"),
+ "C01": dict(level="translation_validation", engine="E3 cvc5 finite-field SMT over decode programs emitted by the real decoder",
+   technique="translation validation of the decoder: for every scenario of a generated family the real SourceBlockDecoder is run (hooked); the operation program behind each answer is proved by a cvc5 finite-field query (all 8L bits of the intermediate symbols symbolic) to be a left inverse of the RFC constraint matrix restricted to the observed slab rows; answers are compared byte for byte with the original",
+   text="Every program behind an answer (about 230 distinct programs in quick, incl. the binary-only fast path) is validated for ALL data against the RFC transcription, with the slab layout (constraint rows, sources in ESI order, padding, repair rows as ESI+K'-K) observed from a run on tagged payloads; every answer of every run equals the original bytes with the exact length, 'not yet' never persists once all source symbols arrived; object-level round trips with Z,N,Al and padding are observed concretely.",
+   note="Packet sets/orders are enumerated and seeded (VERIF_SEED), not symbolic; post-solve data movement is concrete; trusted: vlib/rfc.py, pinned tables, cvc5-FF, F_2 semantics of the ops (C09-C11).",
+   design="§4 C01"),
+ "C02": dict(level="translation_validation", engine="E3 cvc5 finite-field SMT + checked GF(256) kernel witnesses",
+   technique="each verdict of the real decoder is certified in the direction it claims: 'answered' by the finite-field unsat query M*A_rfc[rows]=I (full column rank), 'not yet' with >= K symbols by a GF(256) kernel vector re-checked by evaluation; scenarios include random K-subsets, deliberately rank-deficient sets and batches that defeat the binary-only fast path",
+   text="For ~190 received sets per run (K=10,26 in quick) the decoder's verdict after every delivery is certified: never an answer for a rank-deficient set (certificate would be sat), never 'not yet' for a full-rank set (kernel search finds none => violation), including the fall-back from the no-HDPC fast path and sets with fewer than K symbols.",
+   note="Sets are a generated family; only each set's rank question is settled exactly. Trusted: vlib/rfc.py matrix construction, cvc5-FF, the checker's own evaluation of kernel witnesses.",
+   design="§4 C02"),
 }
 
 NOT_APPLICABLE = {
